@@ -270,6 +270,29 @@ func c04SectionBookkeeping(r *an.Run) {
 		}
 		// appends by result type
 		var secIn, secAfter, dotsIn []*ssa.Call
+		// the section may be closed by a method of a private builder object (b.endSection(…)): a call to a
+		// module function whose one effect on a list of sections is to append the running section to it
+		for _, c := range an.Calls(f) {
+			call, isCall := c.(*ssa.Call)
+			h := an.StaticCallee(c)
+			if !isCall || h == nil || !an.InModule(h) || h.Blocks == nil || h == f || strings.HasSuffix(h.Name(), "compile") {
+				continue
+			}
+			closes := 0
+			for _, ic := range an.CallsTo(h, "builtin:append") {
+				if t := an.ShortType(ic.(*ssa.Call).Type()); t == "[][]engine.Matcher" || t == "[][]engine.Replacer" {
+					closes++
+				}
+			}
+			if closes != 1 || len(an.Loops(h)) > 0 {
+				continue
+			}
+			if loop.Blocks[call.Block()] {
+				secIn = append(secIn, call)
+			} else {
+				secAfter = append(secAfter, call)
+			}
+		}
 		for _, c := range an.CallsTo(f, "builtin:append") {
 			call := c.(*ssa.Call)
 			t := an.ShortType(call.Type())
@@ -320,7 +343,11 @@ func c04SectionBookkeeping(r *an.Run) {
 			r.Check(nDots == 1, short(f)+"|dots-test", f.Pos(), "the loop tests each item with the elision predicate it was given (found %d such branch(es))", nDots)
 		}
 		if len(secAfter) == 1 {
-			r.Check(loop.Header.Dominates(secAfter[0].Block()) && mustPassAllPaths(f, loop.Header.Succs[1], secAfter[0].Block()), short(f)+"|final-section", secAfter[0].Pos(), "every way out of the loop appends the final section (len(Dots) == len(Sections)-1)")
+			exit := loop.Header.Succs[1]
+			if il := an.AsIndexLoop(loop); il != nil {
+				exit = il.If.Block().Succs[1] // (`for i := range n`: the test is at the bottom, and in front of the loop)
+			}
+			r.Check((exit == secAfter[0].Block() || exit.Dominates(secAfter[0].Block())) && mustPassAllPaths(f, exit, secAfter[0].Block()), short(f)+"|final-section", secAfter[0].Pos(), "every way out of the loop appends the final section (len(Dots) == len(Sections)-1)")
 		}
 		// the section being appended is the running `current`, and it is reset afterwards: the phi of current gets nil on that path
 		fps = append(fps, fingerprintFiltered(f, func(s string) bool {
